@@ -27,7 +27,9 @@ REQUIRED = ["Sqfs.C05." + n for n in (
     "meta_seek_safe", "meta_read_safe", "meta_read_terminates", "meta_history_safe", "get_block_safe",
     "get_fragment_safe", "stream_fill_safe", "data_read_safe", "read_table_safe", "read_table_terminates", "read_inode_file_safe", "read_inode_slink_safe",
     "read_inode_dir_ext_safe", "read_dir_ent_safe", "readdir_progress", "unpack_dir_index_safe",
-    "resolve_compare_safe", "fill_dir_terminates", "dir_rec_terminates")]
+    "resolve_compare_safe", "fill_dir_terminates", "dir_rec_terminates",
+    "fill_dir_nodes_linear", "dir_rec_nodes_linear", "fill_dir_depth_bounded", "dir_rec_depth_bounded",
+    "fill_dir_v_terminates", "dir_rec_v_terminates")]
 
 # known-finding keys (exactly the strings in known_findings.d/C05.json)
 K_D3 = "D3:sqfs_meta_reader_read:after-failed-seek"
@@ -413,13 +415,56 @@ def graph_spec(fg, edges, inums, finums):
     return ";".join(parts)
 
 
+def nesting_limit():
+    """SQFS_MAX_DIR_NESTING of the working tree (None: the tree has no nesting limit; the models are then run with the
+    value fixes/C05-nesting-limit.patch proposes and every difference is the recorded finding)"""
+    try:
+        m = re.search(r"#define\s+SQFS_MAX_DIR_NESTING\s+(\d+)", (vlib.REPO / "include/sqfs/dir.h").read_text())
+    except OSError:
+        m = None
+    return int(m.group(1)) if m else None
+
+
+def fixed_graphs(limit):
+    """deterministic walk-level cases: (label, edges, inums, short_names)"""
+    out = [("shared:listed-twice", [[1, 1], []], [1, 2], False),
+           ("shared:two-parents", [[1, 2], [3], [3], []], [1, 2, 3, 4], False),
+           ("shared:diamond4", [[i + 1, i + 1] for i in range(4)] + [[]], [1, 2, 3, 4, 5], False),
+           ("shared:below-sibling", [[1, 2], [2], []], [1, 2, 3], False),
+           ("inum:two-dirs-same-number", [[1, 2], [], []], [1, 2, 2], False),
+           ("tree:plain", [[1, 2], [3], [], []], [1, 2, 3, 4], False)]
+    for n in (limit - 1, limit, limit + 1, limit + 2):
+        out.append(("chain:%d" % n, [[i + 1] for i in range(n)] + [[]], list(range(1, n + 2)), True))
+    return out
+
+
+def walk_known_key(want, cur, impl):
+    """the tree behaves like the model of the unpatched walks where the repaired model refuses: which recorded finding"""
+    if impl == cur and want != cur:
+        if want == "err LINK_LOOP":
+            return K_DAG
+        if want == "err OVERFLOW":
+            return K_DEEP
+    return None
+
+
 def walk_level(ctx, tools, stats):
     n = 25 if ctx.quick() else 300
     cyc_budget = 2 if ctx.quick() else 10
     d = ctx.scratch / "walk"
     d.mkdir(exist_ok=True)
     env = ctx.san_env({"ASAN_OPTIONS": ASAN_OPTS})
+    tree_limit = nesting_limit()
+    limit = tree_limit if tree_limit is not None else 4096
+    stats["nesting_limit_of_tree"] = tree_limit
     specs = []
+    for label, edges, inums, short in fixed_graphs(limit):
+        fg = F.graph_image(edges, inums)
+        if short:
+            for dn in fg.nodes:
+                dn.entries = [(b"d", e[1]) for e in dn.entries]
+        img = fg.build()
+        specs.append((graph_spec(fg, edges, inums, []), img, edges, [inums, None, [], []], label))
     for k in range(n):
         edges, inums, ext, finums, fext = gen_graph(ctx.rng)
         fg = F.graph_image(edges, inums, len(finums), ext, finums, fext)
@@ -427,65 +472,102 @@ def walk_level(ctx, tools, stats):
         spec = graph_spec(fg, edges, inums, finums)
         stats["walk_ext_dirs"] = stats.get("walk_ext_dirs", 0) + sum(ext)
         stats["walk_basic_dirs"] = stats.get("walk_basic_dirs", 0) + len(ext) - sum(ext)
-        specs.append((spec, img, edges, [inums, ext, finums, fext]))
-    model = ctx.driver(["c05"], "\n".join("walk " + s[0] for s in specs) + "\n")
-    for (spec, img, edges, inums), ml in zip(specs, model):
-        mm = re.match(r"tree (ok \d+|err \S+|diverges) tar (ok \d+|err \S+|diverges)", ml)
-        if not mm:
-            ctx.violation("corr:walk:parse", "model answered %r" % ml, {"spec": spec}, found_input=False)
+        specs.append((spec, img, edges, [inums, ext, finums, fext], "random"))
+    text = "\n".join("walkl %d %s" % (limit, s[0]) for s in specs) + "\n"
+    model = ctx.driver(["c05"], text)
+    current = ctx.driver(["c05", "current"], text)
+    pat = r"tree (ok \d+|err \S+|diverges) tar (ok \d+|err \S+|diverges)"
+
+    def known(key, what, rp):
+        stats["known_walk"][key] = stats["known_walk"].get(key, 0) + 1
+        ctx.violation(key, what, rp)
+
+    for (spec, img, edges, inums, label), ml, cl in zip(specs, model, current):
+        mm, cm = re.match(pat, ml), re.match(pat, cl)
+        if not mm or not cm:
+            ctx.violation("corr:walk:parse", "model answered %r / %r" % (ml[:200], cl[:200]), {"spec": spec[:2000]}, found_input=False)
             continue
+        chain = label.startswith("chain:")
         p = d / "g.sqfs"
         p.write_bytes(img)
         stats["walk_images"] += 1
+        mk = "walk_model_" + (mm.group(1).split()[1] if mm.group(1).startswith("err") else "ok")
+        stats[mk] = stats.get(mk, 0) + 1
+        img_rp = base64.b64encode(img).decode() if len(img) < 400000 else "(walk-level case %s, rebuilt by the check)" % label
         # rdsquashfs -d : fill_dir
-        r = run_tool(ctx, [str(tools["rdsquashfs"]), "-d", str(p)], env, 20)
+        r = run_tool(ctx, [str(tools["rdsquashfs"]), "-d", str(p)], env, 60 if chain else 20, keep_all=chain)
         # one line per tree node; the root directory itself ("dir / ...", printed by newer describe.c) is not a node below the root
         cnt = len([l for l in r["out"].splitlines() if l.split(" ")[0] in ("dir", "file", "slink", "nod", "pipe", "sock")
                    and l.split(" ")[1:2] not in (["/"], ['"/"'])])
-        impl = ("ok %d" % cnt) if r["rc"] == 0 else ("err LINK_LOOP" if "link loop" in r["err"] else "err rc=%s %s" % (r["rc"], r["err"][-80:]))
+        if r["rc"] == 0:
+            impl = "ok %d" % cnt
+        elif "link loop" in r["err"]:
+            impl = "err LINK_LOOP"
+        elif "numeric overflow" in r["err"]:
+            impl = "err OVERFLOW"
+        else:
+            impl = "err rc=%s %s" % (r["rc"], r["err"][-80:])
         graph = {i: [j for j in e if j >= 0] for i, e in enumerate(edges)}
         big = (F.tree_size(graph, 0) or 0) > 200000
         if impl != mm.group(1) and not big:
-            ctx.violation("corr:walk:fill_dir:" + vlib.sha(spec)[:8], "rdsquashfs -d on a forged directory graph: impl=%s model=%s" % (impl, mm.group(1)),
-                          {"kind": "image", "image_b64": base64.b64encode(img).decode(), "cmd": ["rdsquashfs", "-d"], "model": ml,
-                           "impl_stdout": r["out"][:2000], "impl_stderr": r["err"][:1000], "graph": [edges, inums]},
-                          found_input=(r["rc"] in (98, 99, "timeout") or (isinstance(r["rc"], int) and r["rc"] < 0)))
+            rp = {"kind": "image", "image_b64": img_rp, "cmd": ["rdsquashfs", "-d"], "model": ml, "model_current": cl, "case": label,
+                  "impl_stdout": r["out"][:2000], "impl_stderr": r["err"][:1000], "graph": [edges, inums] if not chain else label}
+            key = walk_known_key(mm.group(1), cm.group(1), impl)
+            if key:
+                known(key, "rdsquashfs -d delivers %s where the repaired fill_dir answers %s (case %s)" % (impl, mm.group(1), label), rp)
+            else:
+                ctx.violation("corr:walk:fill_dir:" + vlib.sha(spec)[:8], "rdsquashfs -d on a forged directory graph (%s): impl=%s model=%s" % (label, impl, mm.group(1)), rp,
+                              found_input=(r["rc"] in (98, 99, "timeout") or (isinstance(r["rc"], int) and r["rc"] < 0)))
         # the other users of fill_dir: unpack and sqfsdiff must end by themselves as well (error exit on a loop)
         for nm, cmd in (("rdsquashfs -u", [str(tools["rdsquashfs"]), "-u", "/", "-p", str(d / "un"), "-q", str(p)]),
                         ("sqfsdiff", [str(tools["sqfsdiff"]), "-a", str(p), "-b", str(p)])):
+            if chain:
+                break                                   # paths longer than PATH_MAX: nothing to unpack or compare
             r2 = run_tool(ctx, cmd, env, 20)
             shutil.rmtree(d / "un", ignore_errors=True)
             died = classify_tool_failure(nm, r2, img)[0] != "ok"        # sanitizer report, signal, timeout (benign qsort(NULL,0) excluded)
-            wrong = (mm.group(1) == "err LINK_LOOP" and r2["rc"] == 0)
+            wrong = (mm.group(1).startswith("err") and r2["rc"] == 0)
             if (died or wrong) and not big:
-                ctx.violation("corr:walk:%s:%s" % (nm.split()[0], vlib.sha(spec)[:8]),
-                              "%s on a forged directory graph: rc=%s, model of fill_dir: %s (%s)" % (nm, r2["rc"], mm.group(1), crash_site(r2["err"])),
-                              {"kind": "image", "image_b64": base64.b64encode(img).decode(), "cmd": [nm.split()[0]] + ([nm.split()[1]] if " " in nm else []),
-                               "model": ml, "stderr": r2["err"][:1500], "graph": [edges, inums]}, found_input=died)
+                rp = {"kind": "image", "image_b64": img_rp, "cmd": [nm.split()[0]] + ([nm.split()[1]] if " " in nm else []),
+                      "model": ml, "model_current": cl, "stderr": r2["err"][:1500], "graph": [edges, inums]}
+                if wrong and not died and cm.group(1).startswith("ok") and walk_known_key(mm.group(1), cm.group(1), cm.group(1)):
+                    known(walk_known_key(mm.group(1), cm.group(1), cm.group(1)),
+                          "%s reads a tree the repaired fill_dir refuses (%s; case %s)" % (nm, mm.group(1), label), rp)
+                else:
+                    ctx.violation("corr:walk:%s:%s" % (nm.split()[0], vlib.sha(spec)[:8]),
+                                  "%s on a forged directory graph: rc=%s, model of fill_dir: %s (%s)" % (nm, r2["rc"], mm.group(1), crash_site(r2["err"])),
+                                  rp, found_input=died)
         # sqfs2tar : dir_rec
         cyclic = F.has_cycle(graph, 0)
         if cyclic:
             if cyc_budget <= 0:
                 continue
             cyc_budget -= 1
-        r = run_tool(ctx, [str(tools["sqfs2tar"]), str(p)], env, 6 if cyclic else 20, tar_count=True)
-        want = mm.group(2)
+        r = run_tool(ctx, [str(tools["sqfs2tar"]), str(p)], env, 6 if cyclic else (120 if chain else 20), tar_count=True)
+        want, cur = mm.group(2), cm.group(2)
         if r["rc"] == 0:
             impl = "ok %d" % r["count"]
         elif r["rc"] == "timeout" or "rss limit" in r["err"]:
             impl = "diverges"
         elif r["rc"] in (98, 99) or (isinstance(r["rc"], int) and r["rc"] < 0):
             impl = "crash rc=%s" % r["rc"]
+        elif "link loop" in r["err"].lower():
+            impl = "err LINK_LOOP"
+        elif "numeric overflow" in r["err"]:
+            impl = "err OVERFLOW"
         else:
-            impl = "err LINK_LOOP" if "link loop" in r["err"].lower() else "err other"
+            impl = "err other"
         stats["walk_tar_" + impl.split()[0]] = stats.get("walk_tar_" + impl.split()[0], 0) + 1
-        if impl == want or (want.startswith("err") and impl.startswith("err")):
+        if impl == want or (want.startswith("err") and impl == "err other"):
             continue
-        rp = {"kind": "image", "image_b64": base64.b64encode(img).decode(), "cmd": ["sqfs2tar"], "model": ml, "impl": impl}
-        if impl == "diverges" and cyclic:
-            ctx.violation(K_D17, "sqfs2tar does not terminate on an image whose directory graph has a cycle (model of the current dir_rec.c: diverges for every fuel)", rp)
+        rp = {"kind": "image", "image_b64": img_rp, "cmd": ["sqfs2tar"], "model": ml, "model_current": cl, "impl": impl, "case": label}
+        key = walk_known_key(want, cur, impl)
+        if key:
+            known(key, "sqfs2tar delivers %s where the repaired recursive iterator answers %s (case %s)" % (impl, want, label), rp)
+        elif impl == "diverges" and cyclic:
+            ctx.violation(K_D17, "sqfs2tar does not terminate on an image whose directory graph has a cycle (model of the walk without any check: diverges for every fuel)", rp)
         else:
-            ctx.violation("corr:walk:dir_rec:" + vlib.sha(spec)[:8], "sqfs2tar on a forged directory graph: impl=%s model=%s" % (impl, want), rp,
+            ctx.violation("corr:walk:dir_rec:" + vlib.sha(spec)[:8], "sqfs2tar on a forged directory graph (%s): impl=%s model=%s" % (label, impl, want), rp,
                           found_input=impl.startswith(("crash", "diverges")))
 
 
@@ -496,7 +578,7 @@ def clip(b):
     return t if len(t) <= 9000 else t[:6000] + "\n[...]\n" + t[-3000:]
 
 
-def run_tool(ctx, cmd, env, timeout, tar_count=False, cwd=None):
+def run_tool(ctx, cmd, env, timeout, tar_count=False, cwd=None, keep_all=False):
     t0 = time.time()
     try:
         if tar_count:
@@ -516,7 +598,7 @@ def run_tool(ctx, cmd, env, timeout, tar_count=False, cwd=None):
             err = clip(p.stderr.read())
             return {"rc": rc, "out": "", "err": err, "count": cnt, "t": time.time() - t0}
         r = subprocess.run(cmd, stdout=subprocess.PIPE, stderr=subprocess.PIPE, env=env, timeout=timeout, cwd=cwd)
-        return {"rc": r.returncode, "out": r.stdout[-200000:].decode(errors="replace"), "err": clip(r.stderr), "t": time.time() - t0}
+        return {"rc": r.returncode, "out": (r.stdout if keep_all else r.stdout[-200000:]).decode(errors="replace"), "err": clip(r.stderr), "t": time.time() - t0}
     except subprocess.TimeoutExpired as e:
         return {"rc": "timeout", "out": "", "err": clip(e.stderr or b""), "t": time.time() - t0}
 
@@ -804,7 +886,7 @@ def run(ctx):
             return ctx.finish(LEVEL)
     harness, api, tools = build_all(ctx)
     stats = {"lines": 0, "crashes": 0, "disagreements": 0, "post_failure_lines": 0, "known_crashes": {}, "known_silent": {},
-             "walk_images": 0, "tool_runs": 0, "known_tool": {}}
+             "walk_images": 0, "tool_runs": 0, "known_tool": {}, "known_walk": {}}
     t0 = time.time()
     nontrivial, lines, impl, model = routine_level(ctx, harness, stats)
     t1 = time.time()
@@ -831,6 +913,8 @@ def run(ctx):
         "routine_disagreements": stats["disagreements"], "routine_post_failure_lines_not_compared": stats["post_failure_lines"],
         "known_routine_crashes": stats["known_crashes"], "known_routine_silent": stats["known_silent"],
         "walk_graphs": stats["walk_images"], "walk_tar": {k: v for k, v in stats.items() if k.startswith("walk_tar_")},
+        "walk_model_fill_dir": {k: v for k, v in stats.items() if k.startswith("walk_model_")},
+        "nesting_limit_of_tree": stats.get("nesting_limit_of_tree"), "known_walk_differences": stats["known_walk"],
         "tool_images": stats["tool_images"], "tool_images_valid": stats["tool_images_valid"], "tool_runs": stats["tool_runs"],
         "tool_outcomes": stats.get("tool_hist"), "known_tool_failures": stats["known_tool"],
         "inputs_per_sec": round((stats["lines"] + stats["tool_runs"]) / max(t3 - t0, 0.01), 1),
